@@ -63,9 +63,18 @@ func natFact(group, name string, v int, src string) {
 	emit(group, name, "Nat", fmt.Sprintf("%d", v), src)
 }
 
+// every facts_*.go file registers its extraction functions in init()
+var factFuncs []func()
+
+func register(f func()) { factFuncs = append(factFuncs, f) }
+
 func allFacts() {
-	factsReorder()
+	for _, f := range factFuncs {
+		f()
+	}
 }
+
+func init() { register(factsReorder) }
 
 // ---------- C02: streamBuffer.Write ----------
 func factsReorder() {
